@@ -40,10 +40,11 @@ def run_checks(repo, evdir):
 def verify(mdir):
     wt = os.path.dirname(os.path.dirname(mdir))
     name = os.path.basename(mdir)
-    prop = os.path.basename(wt).replace("wt_", "")
+    prop = os.path.basename(wt).replace("wt_", "").replace("w2_", "")
+    rnd = "r2" if "w2_" in wt else ""
     tmp = tempfile.mkdtemp(prefix="seedv-")
     env = dict(os.environ, XDG_DATA_HOME=tmp + "/data", XDG_CONFIG_HOME=tmp + "/config", XDG_CACHE_HOME=tmp + "/cache", PYTHONPATH=wt, HOME=tmp)
-    out = {"mutant": f"{prop}-{name}", "property": prop, "dir": mdir}
+    out = {"mutant": f"{prop}-{rnd}{name}", "property": prop, "dir": mdir}
     try:
         patch = os.path.join(mdir, "patch.diff")
         demo = os.path.join(mdir, "demo.py")
